@@ -1,4 +1,6 @@
 """tvmon.gen: input generators (independent of the library under test)."""
+import math
+
 import numpy as np
 
 
@@ -85,8 +87,8 @@ def exact_rank_tt(rng, n, rho):
     d = len(n)
     r = [1]
     for k in range(d - 1):
-        left = int(np.prod(n[:k + 1]))
-        right = int(np.prod(n[k + 1:]))
+        left = math.prod(int(x) for x in n[:k + 1])     # exact (Python ints)
+        right = math.prod(int(x) for x in n[k + 1:])
         r.append(int(min(rho, left, right)))
     r.append(1)
     return cores(rng, n, r, 'normal'), r
